@@ -133,9 +133,75 @@ def h_queries(ctx, sk, depth=1):
     ctx.note("skeleton", gen.describe(sk))
 
 
+INTERLEAVE = [
+    # a(x): precondition reads an undefined fluent after a defined one (the evaluation fails half way);
+    # a2(x): changes n and tests it
+    dict(pre=[9], effs=[12], second_action=[2, 10], pre2=[4], goal=[0, 4], n_bounds="both", sym=["x0"]),
+    dict(pre=[12], effs=[17, 12], second_action=[2, 15], pre2=[4], goal=[0], n_bounds="both", sym=["c"]),
+    dict(pre=[2], effs=[0, 1], effcond=9, second_action=[3, 10], pre2=[5], goal=[5], n_bounds="both", sym=[]),
+]
+
+
+def h_interleave(ctx, sk):
+    """Queries on TWO states of one simulator, interleaved in every order: a query that fails internally (undefined fluent)
+    on one state must not change the answer of the next query on the other state.  Reference answers come from fresh simulators."""
+    from unified_planning.engines.sequential_simulator import UPSequentialSimulator
+    from unified_planning.exceptions import UPProblemDefinitionError
+
+    g = gen.build(ctx, sk)
+    prob, em = g.problem, g.em
+    sim = UPSequentialSimulator(prob, error_on_failed_checks=False)
+    try:
+        s = sim.get_initial_state()
+    except UPProblemDefinitionError:
+        ctx.witness("initial-state-rejected")
+        return
+    instances = [(a, o) for a in g.actions for o in g.objs]
+    par = lambda o: (em.ObjectExp(o),)  # noqa: E731
+
+    def truth(state):
+        # one fresh simulator per STATE: whatever a failing query leaves behind belongs to the same state
+        r = UPSequentialSimulator(prob, error_on_failed_checks=False)
+        out = [r.apply(state, a, par(o)) is not None for a, o in instances]
+        return out, r.is_goal(state)
+
+    t_s, g_s = truth(s)
+    appl = [i for i, ok in enumerate(t_s) if ok]
+    if not appl:
+        ctx.witness("no-successor")
+        return
+    j = appl[ctx.choice("succ", len(appl))]
+    s2 = sim.apply(s, instances[j][0], par(instances[j][1]))
+    t_s2, g_s2 = truth(s2)
+    states = [(s, t_s, g_s, "s"), (s2, t_s2, g_s2, "s'")]
+    for (sa, ta, ga, na) in states:
+        for ia, (a, o) in enumerate(instances):
+            if a is not g.a:
+                continue  # the first query is on the action whose evaluation can fail half way
+            for (sb, tb, gb, nb) in states:
+                if sa is sb:
+                    continue
+                r1 = sim.is_applicable(sa, a, par(o))
+                ctx.check(r1 == ta[ia], "interleave:first", f"is_applicable({na}, {a.name}({o.name}))={r1}, a fresh simulator says {ta[ia]}")
+                for ib, (b, o2) in enumerate(instances):
+                    r2 = sim.is_applicable(sb, b, par(o2))
+                    ctx.check(r2 == tb[ib], "interleave:is_applicable-after-other-state",
+                              f"after is_applicable({na}, {a.name}({o.name})), is_applicable({nb}, {b.name}({o2.name}))={r2} but a fresh simulator says {tb[ib]}")
+                    _ = sim.is_applicable(sa, a, par(o))
+                    r4 = sim.apply(sb, b, par(o2)) is not None
+                    ctx.check(r4 == tb[ib], "interleave:apply-after-other-state",
+                              f"after a query on {na}, apply({nb}, {b.name}({o2.name})) {'succeeds' if r4 else 'fails'} but a fresh simulator says {tb[ib]}")
+                    ctx.witness("interleaved")
+                _ = sim.is_applicable(sa, a, par(o))
+                ctx.check(sim.is_goal(sb) == gb, "interleave:is_goal-after-other-state", f"is_goal({nb}) differs from a fresh simulator after a query on {na}")
+    ctx.note("skeleton", gen.describe(sk))
+
+
 def shards(tier, seed):
     out = []
     sks = EXTRA + gen.QUICK
+    for i, sk in enumerate(INTERLEAVE):
+        out.append(dict(name=f"interleave{i}", fn="h_interleave", kwargs=dict(sk=sk), budget=110 if tier == "quick" else 1200, per_path=60))
     if tier == "quick":
         sks = EXTRA + [dict(sk, sym=syms[0]) for sk, syms in gen._BASE]
         for i, sk in enumerate(sks):
